@@ -175,27 +175,47 @@ Definition process_deleted_entry (e : gentry) : res :=
   | Link _ | Commit _ => []
   end.
 
-(* process_changed_entry (called when the two ids differ); the Tree/Tree case is
-   compare_trees_recursive, written inline because the recursion goes through it *)
+(* the test that guards process_changed_entry: same object id and same class of entry.
+   (A symbolic link is stored as a blob, so a Link and a Blob can share an id; the class test
+   makes the skip safe. Before fix D32 the test was the id alone.) *)
+Definition same_object (b t : gentry) : bool :=
+  oid_eqb b t && Bool.eqb (is_special b) (is_special t).
+
+(* process_changed_entry; the Tree/Tree case is compare_trees_recursive, written inline because
+   the recursion goes through it. Link / Commit against Blob / Tree: the regular side counts as
+   added resp. deleted (fix D32; before it every pair with a Link or Commit was skipped). *)
 Fixpoint process_changed_entry (be te : gentry) {struct te} : res :=
-  match be, te with
-  | Blob _ _, Blob _ _ => [(Chg, [])]
-  | Tree bes, Tree tes =>
-      flat_map (fun nt =>
-        under (fst nt)
-          (match assoc (fst nt) bes with
-           | Some b => if oid_eqb b (snd nt) then [] else process_changed_entry b (snd nt)
-           | None => process_added_entry (snd nt)
-           end)) tes
-      ++ flat_map (fun nb =>
-           if has_name (fst nb) tes then [] else under (fst nb) (process_deleted_entry (snd nb))) bes
-  | Tree _, Blob _ _ => process_deleted_entry be ++ [(Chg, [])]
-  | Blob _ _, Tree _ => (Del, []) :: process_added_entry te
-  | _, _ => []                                   (* Link / Commit on either side: skipped *)
+  match te with
+  | Blob _ _ =>
+      match be with
+      | Blob _ _ => [(Chg, [])]
+      | Tree _ => process_deleted_entry be ++ [(Chg, [])]
+      | Link _ | Commit _ => process_added_entry te
+      end
+  | Tree tes =>
+      match be with
+      | Tree bes =>
+          flat_map (fun nt =>
+            under (fst nt)
+              (match assoc (fst nt) bes with
+               | Some b => if same_object b (snd nt) then [] else process_changed_entry b (snd nt)
+               | None => process_added_entry (snd nt)
+               end)) tes
+          ++ flat_map (fun nb =>
+               if has_name (fst nb) tes then []
+               else under (fst nb) (process_deleted_entry (snd nb))) bes
+      | Blob _ _ => (Del, []) :: process_added_entry te
+      | Link _ | Commit _ => process_added_entry te
+      end
+  | Link _ | Commit _ =>
+      match be with
+      | Blob _ _ | Tree _ => process_deleted_entry be
+      | Link _ | Commit _ => []
+      end
   end.
 
 Definition compare_entry (be te : gentry) : res :=
-  if oid_eqb be te then [] else process_changed_entry be te.
+  if same_object be te then [] else process_changed_entry be te.
 
 (* compare_trees_recursive(base_tree, target_tree, prefix = empty) *)
 Definition compare_trees_recursive (bes tes : list (name * gentry)) : res :=
@@ -253,22 +273,26 @@ Definition iblob_at (idx : index) (p : path) : option str :=
 Definition build_head_path_map (head : option (list (name * gentry))) : list (path * str) :=
   match head with Some es => blobs (Tree es) | None => [] end.
 
-(* *head_oid != entry.id for a head entry that is a blob *)
-Definition ioid_differs (head_content : str) (e : ientry) : bool :=
-  match e with
-  | IBlob _ c => negb (str_eqb head_content c)
-  | ILink t => negb (str_eqb head_content t)
-  | ICommit _ => true
-  end.
+(* index_paths: does the index hold a regular-file entry at p *)
+Definition has_regular (idx : index) (p : path) : bool :=
+  existsb (fun pe => path_eqb p (fst pe) && is_regular (snd pe)) idx.
 
+(* get_staged_files. Entries that are not regular files are skipped like on the HEAD side
+   (fix D21); regular files of HEAD that have no regular index entry and still exist are
+   included (fix D22). A missing index file is the empty index (fix D33). *)
 Definition get_staged_files (canon : path -> option path)
            (head : option (list (name * gentry))) (idx : index) : list path :=
   let hm := build_head_path_map head in
   filter_map (fun pe =>
-        match assoc_path (fst pe) hm with
-        | Some c => if ioid_differs c (snd pe) then Some (fst pe) else None
-        | None => Some (fst pe)
-        end) idx.
+      match snd pe with
+      | IBlob _ c =>
+          match assoc_path (fst pe) hm with
+          | Some hc => if str_eqb hc c then None else Some (fst pe)
+          | None => Some (fst pe)
+          end
+      | ILink _ | ICommit _ => None
+      end) idx
+  ++ filter (fun p => negb (has_regular idx p) && exists_b canon p) (map fst hm).
 
 (* ------------------------------------------------------------------ check_git_diff.rs *)
 
@@ -307,10 +331,20 @@ Definition parse_diff_range (s : str) : range_result :=
       end
   end.
 
-(* filter_by_git_diff: both sides canonicalised, scanned files kept in order *)
+(* filter_by_git_diff: both sides canonicalised, scanned files kept in order. A member of the set
+   whose canonical spelling is not the path itself is, or lies behind, a symbolic link and is
+   dropped (fix D34; before it every member that resolved was kept under its resolved name). *)
+Definition self_canonical (canon : path -> option path) (p : path) : option path :=
+  match canon p with
+  | Some q => if path_eqb q p then Some q else None
+  | None => None
+  end.
+
+Definition in_canonical_set (canon : path -> option path) (cs : list path) (f : path) : bool :=
+  match canon f with Some c => mem_path c cs | None => false end.
+
 Definition filter_by_set (canon : path -> option path) (files set : list path) : list path :=
-  let cs := filter_map canon set in
-  filter (fun f => match canon f with Some c => mem_path c cs | None => false end) files.
+  filter (in_canonical_set canon (filter_map (self_canonical canon) set)) files.
 
 Definition diff_files canon (bes tes : list (name * gentry)) (files : list path) : list path :=
   filter_by_set canon files (get_changed_files_range canon bes tes).
